@@ -45,6 +45,18 @@ Theorem C11_same_page_shortening : forall quote, (forall t, ~ In c_hash (quote t
        exists p, page_obj r o = Some p /\ page_url quote r p = ctx /\ h' = quote (name_of r o)).
 Proof. exact taglink_shortening. Qed.
 
+(* Liveness, unconditional part: member tables (own and package __init__), moduleIndex.html, the root list of index.html
+   and objects.inv pick their targets from the contents of written pages or from the roots; every href they carry,
+   resolved against the page it is rendered on, is a written file and, with a fragment, an anchor of that file. *)
+Theorem C11_links_live : forall quote, (forall t, ~ In c_hash (quote t)) ->
+  forall r depth ns e h, wf r ->
+  In e (site_entries quote table_now r depth ns) -> contents_prod (e_prod e) = true ->
+  link_of quote table_now r e = Some h -> live_at quote table_now r (e_page e) h.
+Proof.
+  intros quote Hq r depth ns e h Hwf. destruct listings_checked as [Ht [Hf [H1 H2]]].
+  exact (links_live_contents quote table_now r Hq depth ns e h Hwf Ht Hf H1 H2).
+Qed.
+
 (* Guarded liveness: when nothing registered is unreachable through `contents` (no superseded duplicates, no
    collision leftovers), every href built by taglink -- heading, sidebar, member tables, inherited-member tables and
    their base names, known subclasses, class signature, overrides / overridden in, moduleIndex, classIndex,
@@ -81,6 +93,18 @@ Theorem C11_taglink_old_refuted : exists r e h,
 Proof.
   destruct taglink_old_hidden_target as [e [h [H1 [H2 [_ H4]]]]].
   exists w_hidden_base, e, h. exact (conj w_hidden_base_wf (conj H1 (conj H2 H4))).
+Qed.
+
+(* taglink is right relative to the page_url it is handed (C11_same_page_shortening) -- but format_docstring hands it
+   the page of the docstring's SOURCE: the docstring of B.x inherited by S.x says L{t}; the link `#t` is live on B's page
+   and dead on S's page, where it is rendered (known finding C11-inherited-docstring-context). *)
+Theorem C11_xref_context_refuted : exists r o src page h,
+  wf r /\ taglink cquote table_pinned r o (url cquote r src) = Some (c_hash :: h) /\
+  live_at cquote table_pinned r (url cquote r src) (c_hash :: h) /\
+  ~ live_at cquote table_pinned r (url cquote r page) (c_hash :: h).
+Proof.
+  destruct inherited_docstring_context as [h [H1 [H2 H3]]].
+  exists w_inherit, 2, 1, 4, h. exact (conj w_inherit_wf (conj H1 (conj H2 H3))).
 Qed.
 
 (* With a single root the root's page is index.html, and <root>.html (the symlink) is part of the site. *)
